@@ -10,6 +10,7 @@ import (
 	"strings"
 	"testing"
 	"time"
+	"unicode/utf8"
 
 	kit "verifkit"
 	"verifkit/gram"
@@ -26,10 +27,73 @@ import (
 // one / an arbitrary string (then it must either be refused or give exactly the reference value).
 
 type c18Case struct {
-	Parser    string `json:"parser"`
-	Input     string `json:"input"`
-	Canonical bool   `json:"canonical"` // input is a canonical rendering of a generated value
-	Origin    string `json:"origin"`    // how the string was made
+	Parser    string  `json:"parser"`
+	Input     string  `json:"input"`
+	Canonical bool    `json:"canonical"`  // input is a canonical rendering of a generated value
+	Origin    string  `json:"origin"`     // how the string was made
+	Read      c18Read `json:"file_reads"` // how a file delivers its content
+}
+
+// c18Read describes the behaviour of the file behind a ports / exclusion file: chunk size of every read, and a read
+// error injected once the given number of bytes has been delivered (once = the next read succeeds again).
+type c18Read struct {
+	Chunk   int    `json:"chunk,omitempty"`    // 0: whole content at once
+	FaultAt int    `json:"fault_at,omitempty"` // byte offset, -1 / 0 with Fault=="" means none
+	Fault   string `json:"fault,omitempty"`    // "", "once" (transient), "persistent"
+}
+
+type c18FaultReader struct {
+	data  []byte
+	pos   int
+	rd    c18Read
+	fired bool
+}
+
+type c18ReadErr struct{}
+
+func (c18ReadErr) Error() string   { return "read /verif/ports: input/output error (injected)" }
+func (c18ReadErr) Timeout() bool   { return true }
+func (c18ReadErr) Temporary() bool { return true }
+
+func (r *c18FaultReader) Read(p []byte) (int, error) {
+	if r.rd.Fault != "" && r.pos >= r.rd.FaultAt && (!r.fired || r.rd.Fault == "persistent") {
+		r.fired = true
+		return 0, c18ReadErr{}
+	}
+	if r.pos >= len(r.data) {
+		return 0, io.EOF
+	}
+	n := len(p)
+	if r.rd.Chunk > 0 && n > r.rd.Chunk {
+		n = r.rd.Chunk
+	}
+	if r.rd.Fault != "" && !r.fired && r.pos+n > r.rd.FaultAt {
+		n = r.rd.FaultAt - r.pos
+	}
+	n = copy(p[:n], r.data[r.pos:])
+	r.pos += n
+	return n, nil
+}
+func (r *c18FaultReader) Close() error { return nil }
+
+func c18OpenRead(content string, rd c18Read) openFileFunc {
+	if rd.Chunk == 0 && rd.Fault == "" {
+		return c18Open(content)
+	}
+	return func() (io.ReadCloser, error) { return &c18FaultReader{data: []byte(content), rd: rd}, nil }
+}
+
+func c18GenRead(t *rapid.T, content string) c18Read {
+	var rd c18Read
+	switch rapid.IntRange(0, 5).Draw(t, "reads") {
+	case 0:
+		rd.Chunk = rapid.SampledFrom([]int{1, 2, 3, 7, 64, 4096}).Draw(t, "chunk")
+	case 1:
+		rd.Chunk = rapid.SampledFrom([]int{0, 1, 5, 4096}).Draw(t, "chunk")
+		rd.Fault = rapid.SampledFrom([]string{"once", "once", "persistent"}).Draw(t, "fault")
+		rd.FaultAt = kit.Uniform(t, "fault-at", len(content)+1)
+	}
+	return rd
 }
 
 func c18Mutate(t *rapid.T, s string, alphabet []rune) string {
@@ -167,7 +231,12 @@ func c18CheckPorts(c c18Case) *kit.Verdict {
 	var ref []gram.PortRange
 	var ok bool
 	if c.Parser == "ports-file" {
-		got, err = parsePortsFile(c18Open(c.Input))
+		got, err = parsePortsFile(c18OpenRead(c.Input, c.Read))
+		if c.Read.Fault != "" {
+			v.Label("read-fault=%s", c.Read.Fault)
+		} else if c.Read.Chunk > 0 {
+			v.Label("short-reads")
+		}
 		ref, ok = gram.RefPortsFile(c.Input)
 	} else {
 		got, err = parsePortRanges(c.Input)
@@ -175,14 +244,17 @@ func c18CheckPorts(c c18Case) *kit.Verdict {
 	}
 	if err != nil {
 		v.Label("refused")
-		if c.Canonical {
+		if c.Canonical && c.Read.Fault == "" {
 			return v.Failf("canonical rendering refused: %v", err)
 		}
 		return v
 	}
 	v.Label("accepted")
+	if c.Read.Fault == "persistent" && c.Read.FaultAt < len(c.Input) {
+		return v.Failf("accepted %q as %s although the file could not be read beyond byte %d", clip(c.Input), renderGot(got), c.Read.FaultAt)
+	}
 	if !ok {
-		return v.Failf("accepted %q as %s, but it is not in the reference language", clip(c.Input), renderGot(got))
+		return v.Failf("accepted %q (reads %+v) as %s, but it is not in the reference language", clip(c.Input), c.Read, renderGot(got))
 	}
 	if e := c18SameRanges(got, ref); e != nil {
 		return v.Failf("accepted %q: %v", clip(c.Input), e)
@@ -254,6 +326,9 @@ func TestC18Ports(t *testing.T) {
 					c.Input = "1-2," + strings.TrimLeft(long, "#") + "," + c18RenderList(t, rs)
 				}
 				c.Origin = "over-long"
+			}
+			if c.Parser == "ports-file" {
+				c.Read = c18GenRead(t, c.Input)
 			}
 			return c
 		},
@@ -468,14 +543,22 @@ type c18PayloadCase struct {
 func TestC18Payload(t *testing.T) {
 	kit.Run(t, kit.Spec[c18PayloadCase]{
 		Prop: "C18",
-		Rule: "--payload strings: every generated byte string rendered as \\xHH, octal, or printable-literal mix must parse back to exactly those bytes; mutated renderings and arbitrary strings must be refused or equal the reference unescape (Go string-literal escapes). raw non-UTF-8 input is a documented don't-care. non-trivial: non-empty; distinct by input",
+		Rule: "--payload strings: every generated byte string rendered as \\xHH, octal, printable-literal mix or Go's own literal rendering (\\u / \\U escapes; byte strings and UTF-8 text with control, C1, separator, BOM and non-BMP runes) must parse back to exactly those bytes; mutated renderings and arbitrary strings must be refused or equal the reference unescape (Go string-literal escapes). raw non-UTF-8 input is a documented don't-care. non-trivial: non-empty; distinct by input",
 		Gen: func(t *rapid.T) c18PayloadCase {
 			n := rapid.SampledFrom([]int{0, 1, 2, 3, 16, 255, 1460, -1}).Draw(t, "len")
 			if n < 0 {
 				n = rapid.IntRange(0, 300).Draw(t, "len2")
 			}
 			val := rapid.SliceOfN(rapid.Byte(), n, n).Draw(t, "bytes")
-			s := gram.RenderPayload(val, rapid.IntRange(0, 2).Draw(t, "mode"))
+			if rapid.IntRange(0, 2).Draw(t, "text") == 0 {
+				// bytes that are (mostly) UTF-8 text with runes from every class: controls, C1, NBSP, BOM, separators, non-BMP
+				val = val[:0]
+				for i := 0; i < n; i++ {
+					r := rapid.SampledFrom([]rune{0, 7, 0x1b, 'a', '"', '\\', '\'', 0x7f, 0x80, 0x85, 0xa0, 0xad, 0xe9, 0x2028, 0x2029, 0xfeff, 0xfffd, 0xffff, 0x1f600, 0x10ffff}).Draw(t, "rune")
+					val = utf8.AppendRune(val, r)
+				}
+			}
+			s := gram.RenderPayload(val, rapid.IntRange(0, 4).Draw(t, "mode"))
 			c := c18PayloadCase{Input: s, Canonical: true, Value: val, Origin: "canonical"}
 			switch rapid.IntRange(0, 3).Draw(t, "origin") {
 			case 0, 1:
@@ -524,6 +607,7 @@ type c18ExcludeCase struct {
 	Canonical bool     `json:"canonical"`
 	Origin    string   `json:"origin"`
 	Probe     []uint32 `json:"extra_probe_addresses"`
+	Read      c18Read  `json:"file_reads"`
 }
 
 func c18GenPrefixes(t *rapid.T, max int) []gram.Prefix {
@@ -602,11 +686,19 @@ func c18ExcludeAgrees(excl scan.IPContainer, ref []gram.Prefix, extra []uint32) 
 func c18CheckExclude(c c18ExcludeCase) *kit.Verdict {
 	v := &kit.Verdict{NonTrivial: true}
 	v.Label("origin=%s", c.Origin)
-	excl, err := parseExcludeFile(c18Open(c.Content))
+	excl, err := parseExcludeFile(c18OpenRead(c.Content, c.Read))
 	ref, allV4 := gram.RefExcludeFile(c.Content)
+	if c.Read.Fault != "" {
+		v.Label("read-fault=%s", c.Read.Fault)
+	} else if c.Read.Chunk > 0 {
+		v.Label("short-reads")
+	}
+	if err == nil && c.Read.Fault == "persistent" && c.Read.FaultAt < len(c.Content) {
+		return v.Failf("exclusion file accepted although it could not be read beyond byte %d:\n%s", c.Read.FaultAt, clip(c.Content))
+	}
 	if err != nil {
 		v.Label("refused")
-		if c.Canonical {
+		if c.Canonical && c.Read.Fault == "" {
 			return v.Failf("canonical exclusion file refused: %v\n%s", err, clip(c.Content))
 		}
 		return v
@@ -655,6 +747,7 @@ func TestC18Exclude(t *testing.T) {
 			default:
 				c.Content, c.Canonical, c.Origin = c18Arbitrary(t, c18IPAlphabet), false, "arbitrary"
 			}
+			c.Read = c18GenRead(t, c.Content)
 			return c
 		},
 		Check: c18CheckExclude,
